@@ -30,6 +30,24 @@ CHECKS = {
         "excluded (C02). Nothing is claimed beyond the deviation bound or for scripts outside the menu/closure.",
         "DESIGN.md §4 C01",
     ),
+    "C02": (
+        "fault_enumeration",
+        "exhaustive seal/open differential against an independent RFC 9001/9369 implementation + exhaustive single-bit/single-byte alteration of every packet in every baseline state",
+        "(1) every (suite x version x key phase 0/1/2 x header form x CID lengths x payload-length grid x 4 "
+        "packet-number lengths x 9 packet numbers) packet sealed by aioquic is opened bit-exactly by refquic "
+        "and vice versa, also through the public path (datagrams_to_send() output opened from the secrets log "
+        "with RFC labels only; refquic-built packets fed to receive_datagram). (2) decode_packet_number "
+        "against the brute-force closest-candidate definition, exhaustive for 8 bits x 2048 expected values "
+        "and around every window edge for 16/24/32 bits. (3) for every packet of every datagram of recorded "
+        "handshake/data/key-update/Retry flights, in the connection state just before it, EVERY single-bit "
+        "(quick) / single-byte-value (thorough, 12 M mutants) alteration is fed to the real endpoint: nothing "
+        "may change (events, tls state, close, receive bookkeeping), then the genuine packet is accepted and "
+        "the baseline completes identically.",
+        "`cryptography` AES/ChaCha primitives are the trusted base of refquic. Mutants that become well-formed "
+        "Version Negotiation packets and mutants a front end would not route are counted, not judged. Random "
+        "62-bit packet numbers/payloads not covered; 0-RTT only at component level.",
+        "DESIGN.md §4 C02",
+    ),
     "C03": (
         "fault_enumeration",
         "exhaustive single-byte alteration of every handshake message + exhaustive t-wise configuration enumeration on real endpoints, with an independent key-schedule as third opinion",
@@ -48,6 +66,70 @@ CHECKS = {
         "pyOpenSSL chain validation and `cryptography` primitives are trusted; verify_mode=CERT_NONE excluded. "
         "A liveness guard (legal handshake must complete) is reported separately from the property's claims.",
         "DESIGN.md §4 C03",
+    ),
+    "C04": (
+        "exploration",
+        "exhaustive (length, offset) grids and Buffer method-sequence BFS on an ASan+UBSan build with a libcrypto argument shim, a C-contract monitor and a differential reference",
+        "The two C helpers are compiled from the current sources with clang ASan+UBSan and loaded into worker "
+        "interpreters (PYTHONMALLOC=malloc, red zones). Enumerated: HeaderProtection.remove for every packet "
+        "length 0..1600 x every offset, apply for header 0..64 x payload 0..1600, AEAD encrypt/decrypt for every "
+        "length 0..1600 (+large grid) x aad x pn x 3 ciphers each followed by a fixed-vector call (detects "
+        "intra-object overflow), constructors, Buffer method sequences to depth 3/4 with boundary integers on "
+        "small capacities against a reference Buffer, 35k hostile datagrams x 3 connection states and 96 "
+        "max_datagram_size values through the real library with proxies over AEAD/HeaderProtection. "
+        "Observers: sanitizer reports, a preloaded libcrypto shim that checks every in/out range against ASan "
+        "shadow memory, a contract monitor derived from the constants parsed out of _crypto.c (an "
+        "out-of-contract call must raise), and equality with `cryptography`-based references.",
+        "Uninitialised reads and errors inside OpenSSL are not observable (no MSan interpreter). Lengths "
+        "beyond the grids up to 65535 are covered on a boundary grid only.",
+        "DESIGN.md §4 C04",
+    ),
+    "C05": (
+        "model_checking",
+        "exhaustive enumeration of a finite hostile-input grammar over a set of real connection states, inputs chained as histories; key-holding QUIC and TLS adversaries (refquic/reftls)",
+        "For 9-13 connection states of both roles (fresh server, client first flight, after Retry/VN, "
+        "mid-handshake, connected, with streams in several states, closing) every input of a finite grammar "
+        "is handed to a real QuicConnection: ~1300 raw header layouts/garbage/prefixes of genuine datagrams, "
+        "~3400 correctly protected packets per epoch carrying every frame type with boundary values, every "
+        "truncation, repetition and wrong-epoch placement; inputs are chained on one endpoint until it closes "
+        "(depth>1 histories) and every exception is re-derived on a fresh endpoint. A QUIC-level key-holding "
+        "TLS adversary adds 729 structurally valid but hostile TLS messages with valid MACs (both roles) and "
+        "every split of 7 messages across CRYPTO frames. Oracle: receive_datagram returns; the timer/transmit/"
+        "event API keeps returning normally until ConnectionTerminated.",
+        "Depth-1 per state for TLS messages; random datagrams are not sampled (grammar enumeration instead). "
+        "A worker crash (memory corruption) is isolated to the single input and reported.",
+        "DESIGN.md §4 C05",
+    ),
+    "C07": (
+        "model_checking",
+        "explicit-state BFS with history replay over frames from a key-holding peer, against a reference receive-side flow controller fed from the wire",
+        "A real endpoint advertising max_stream_data=8, max_data=16 and 2 streams per kind receives every "
+        "sequence (depth 2-4) of STREAM frames with (offset,len) at limit-1/limit/limit+1 and 2^62-1 with and "
+        "without FIN on in-limit, beyond-limit and wrong-direction streams, RESET_STREAM finals, "
+        "MAX_STREAM_DATA/STREAM_DATA_BLOCKED/STOP_SENDING on every stream kind, interleaved with acks, timers "
+        "and the endpoint's own MAX_* updates. A reference controller (RFC 9000 section 4) fed only with limits the "
+        "endpoint put on the wire decides the verdict: the endpoint must close with a matching error exactly "
+        "when a limit is exceeded and never accuse a compliant peer. Repetition menus (up to 700 frames) "
+        "measure CRYPTO reassembly, path challenges, connection-ID retirements and stream buffers against "
+        "the advertised/documented bounds.",
+        "Depth 2 (full alphabet) / 3 (core) quick, 3 / 4 thorough, both roles. Frames on streams the endpoint "
+        "may have discarded are not judged; a FIN/RESET below already received data may be accepted or rejected.",
+        "DESIGN.md §4 C07",
+    ),
+    "C08": (
+        "model_checking",
+        "explicit-state BFS over the real QuicPacketRecovery + Reno/CUBIC objects (component) and deviation-bounded DFS with a wire/ledger monitor on real connections",
+        "(i) BFS over send/ack(every range set incl. never-sent and already-acked numbers)/time advance/loss "
+        "timer/PTO/space discard on the real recovery and congestion-control objects, 1-3 spaces, Reno and "
+        "CUBIC, depth 4-7, 1.4 M (quick) / 8.5 M (thorough) distinct concrete states; after every call: "
+        "bytes_in_flight == sum of tracked in-flight packets >= 0, each delivery handler fired at most once, "
+        "nothing fires after discard, congestion_window >= 2 datagrams. (ii) on real connection pairs "
+        "(bulk/early/multi-stream/Retry/Version Negotiation/big chain) every schedule with <= d deviations: "
+        "in-flight bytes put on the independently decrypted wire per datagrams_to_send() call <= window minus "
+        "bytes in flight (+1 datagram per probe timeout), and the same ledger equality after every API call.",
+        "Component space does not close (floats): depth bound is the stated bound. Wire part d<=1 quick, d<=2 "
+        "thorough on the small scripts.",
+        "DESIGN.md §4 C08",
     ),
     "C09": (
         "model_checking",
